@@ -37,6 +37,11 @@ from engine.pyvc import driver, core
 from engine.pyvc.core import (Dyn, Ref, R, B, I, Ext, Unknown, Unsupported,
                               NeedFork, PyRaise, const_of, Outcome)
 from contracts.py.extern_cvxopt import LIB as L
+
+# texts of obligations that were refuted because the code is not of the
+# documented FORM (the goal was the constant false: no counter-model), as
+# opposed to a condition that z3 refuted with values
+FORM_REFUTED = set()
 from contracts.py.objective_spec import (Abs, Con, Exp, Cat, Grow, NewVar,
                                          SumOf, CLS, NF, TLEN, Z, IS)
 
@@ -657,6 +662,8 @@ def obligations(timeout_ms=10000):
         r = ex.check(pc, [z3.Not(goal)], timeout=timeout_ms)
         st_ = 'proved' if r == z3.unsat else ('refuted' if r == z3.sat
                                               else 'undecided')
+        if st_ == 'refuted' and z3.is_false(z3.simplify(goal)):
+            FORM_REFUTED.add(text)
         if kind == 'covered' and st_ != 'proved':
             st_ = 'undecided'
         key = (kind, text)
